@@ -237,6 +237,14 @@ impl Path {
         spurious
     }
 
+    /// Returns `true` if the next new branch exceeds the maximum number of
+    /// branches, i.e. if it is going to panic.
+    pub(super) fn is_full(&self) -> bool {
+        self.is_traversed()
+            && self.branches.len() >= self.branches.capacity()
+            && !std::thread::panicking()
+    }
+
     /// Returns the thread identifier to schedule
     pub(super) fn branch_thread(
         &mut self,
